@@ -145,7 +145,11 @@ func (w *dnsWorld) c08AfterOp(op *dnsOp) {
 		// was the entry dropped although its stale window was still open?
 		if last := w.track.latest(op.key); last != nil && last.removed && !last.replaced && last.removedAt <= op.start && last.removeCtx != "shutdown" && last.cause(w) != "rejected-question" {
 			if dl, ok := last.deadline(w); ok && w.inStaleWindow(dl, op.start, op.end) && last.removedAt < w.windowEnd(dl)-dnsMargin && !w.lruMayEvict(last) && op.chain != nil {
-				s.Failf("c08-stale-not-served@entry-dropped-at-"+last.cause(w), "client c%d asked %v at %v, inside the stale window of answer a%v (deadline %v, window %ds), and had to wait for upstream query #%d: the entry had been dropped at %v (%s)",
+				cls := "entry-dropped-at-" + last.cause(w)
+				if w.fixedCase(last) {
+					cls = "fixed-ttl-and-mixed-case-question"
+				}
+				s.Failf("c08-stale-not-served@"+cls, "client c%d asked %v at %v, inside the stale window of answer a%v (deadline %v, window %ds), and had to wait for upstream query #%d: the entry had been dropped at %v (%s)",
 					op.cli, op.key, op.start, last.ids, dl, w.cfg.staleTtl, op.chain.queries[0].seq, last.removedAt, last.cause(w))
 			}
 		}
@@ -155,6 +159,20 @@ func (w *dnsWorld) c08AfterOp(op *dnsOp) {
 	if !ok || !w.inStaleWindow(dl, op.start, op.end) || w.lruMayEvict(pre) {
 		return
 	}
+	if w.fixedCase(pre) {
+		if op.chain != nil || op.err != nil || m == nil {
+			s.Failf("c08-stale-not-served@fixed-ttl-and-mixed-case-question", "client c%d asked %v at %v, inside the stale window the configured fixed TTL gives the cached answer a%v (inserted %v, deadline %v, window %ds), and was not answered from the cache", op.cli, op.key, op.start, pre.ids, pre.insertedAt, dl, w.cfg.staleTtl)
+		}
+		return
+	}
+	if pre.removed && !pre.replaced && pre.removedAt <= op.end && op.chain != nil {
+		if c := pre.cause(w); c == "end-of-refresh" || c == "janitor-expiry" || c == "lru" {
+			// dropped by another path between the op's start and its lookup
+			s.Failf("c08-stale-not-served@entry-dropped-at-"+c, "client c%d asked %v at %v, inside the stale window of the cached answer a%v (deadline %v, window %ds), and had to wait for upstream query #%d: the entry was dropped at %v (%s)",
+				op.cli, op.key, op.start, pre.ids, dl, w.cfg.staleTtl, op.chain.queries[0].seq, pre.removedAt, c)
+			return
+		}
+	}
 	switch {
 	case op.chain != nil:
 		s.Failf("c08-stale-not-served@went-upstream", "client c%d asked %v at %v, inside the stale window of the cached answer a%v (inserted %v, deadline %v, window %ds): instead of being answered at once it waited for upstream query #%d",
@@ -163,6 +181,24 @@ func (w *dnsWorld) c08AfterOp(op *dnsOp) {
 		s.Failf("c08-stale-not-served@error", "client c%d asked %v at %v, inside the stale window of the cached answer a%v (deadline %v, window %ds), and got err=%v with %d replies",
 			op.cli, op.key, op.start, pre.ids, dl, w.cfg.staleTtl, op.err, len(op.replies))
 	}
+}
+
+// fixedCase: fixed_domain_ttl is configured for the entry's name but the question
+// that fetched the answer spelled the name with capitals (the known case-sensitive
+// lookup): the model's lifetime and the controller's differ for such an entry.
+func (w *dnsWorld) fixedCase(e *dnsEntryObs) bool {
+	if e == nil || !e.keyOK {
+		return false
+	}
+	if _, fx := w.cfg.fixed[dnsAllNames[e.key.name]]; !fx {
+		return false
+	}
+	for _, id := range e.ids {
+		if a := w.ansByID(id); a != nil && a.forQuery != nil && a.forQuery.qname != strings.ToLower(a.forQuery.qname) {
+			return true
+		}
+	}
+	return false
 }
 
 func (w *dnsWorld) windowEnd(dl time.Duration) time.Duration {
